@@ -38,7 +38,12 @@ def make_project(seed, nfiles, workdir, size=0.8):
             '  /** @param x ex\n   * @param y why\n   * @param z zed */\n  void three(int x, int y, int z) { }\n'
             '  /** @author ann\n   * @param solo single */\n  void authored(int solo) { }\n'
             '  /** @param p1 first p\n   *  @param p2 second p */\n  void setter(int p1, int p2) { }\n'
-            '  /** @version 3\n   * @param q1 q one\n   * @param q2 q two\n   * @param q3 q three\n   * @param q4 q four */\n  void four(int q1, int q2, int q3, int q4) { }\n}\n')
+            '  /** @version 3\n   * @param q1 q one\n   * @param q2 q two\n   * @param q3 q three\n   * @param q4 q four */\n  void four(int q1, int q2, int q3, int q4) { }\n'
+            # a tag name repeated with other tags in between; a single-valued tag written twice before another tag
+            '  /** @param value v\n   * @return the clamped value\n   * @param limit the upper limit */\n  int clamp(int value, int limit) { return value; }\n'
+            '  /** @param a first\n   * @throws Alpha when a\n   * @param b second\n   * @throws Beta when b */\n  void check(int a, int b) { }\n'
+            '  /** @see Alpha\n   * @see Beta\n   * @author bob */\n  void seen() { }\n'
+            '  /** @see Gamma\n   * @author bob */\n  void seenOnce() { }\n}\n')
     files.append(('src/twins/Docs.java', docs.encode()))
     proj = workdir + '/proj'
     qrun.write_project(proj, files)
